@@ -610,7 +610,11 @@ func (i *uinteger) BitWidth() BitWidth          { return i.t }
 func (i *uinteger) Validate(ctx ValidateCtx, path []string, s string) error {
 	var ui uint64
 	var e error
-	ui, e = strconv.ParseUint(s, 10, int(i.t))
+	// RFC 6020 9.2.1: an optional sign ("+" or "-"); ParseUint takes none
+	ui, e = strconv.ParseUint(strings.TrimPrefix(s, "+"), 10, int(i.t))
+	if strings.HasPrefix(s, "++") {
+		e = &strconv.NumError{Func: "ParseUint", Num: s, Err: strconv.ErrSyntax}
+	}
 	if e != nil {
 		goto out
 	}
